@@ -41,6 +41,8 @@ TEMPLATES = {
     "dup-labels": [("star", "p0", "rom"), ("block", [("label", "same")]), ("block", [("label", "same")]), ("dw", "v"), ("scope", "ns", [("label", "same")]), ("label", "after")],
     # the -D name re-used as a macro parameter, a loop variable and a block-local symbol (the local meaning wins inside)
     "define-shadow": [("star", "p0", "rom"), ("raw", ".macro mv(v) {\n.db v\n}\nmv(5)", 1), ("raw", ".for v := 0, 2 {\n.db v\n}", 2), ("raw", "{\nv = 3\n.db v\n}", 1), ("dw", "v"), ("label", "end")],
+    # the same bytes written again at the same address after another block (three records / writes, in order)
+    "repeat-block": [("star", "p0", "rom"), ("db", "v"), ("star", "p1", "rom"), ("dw", "v"), ("star", "p0", "rom"), ("db", "v"), ("label", "again")],
     "scopes": [("star", "p0", "rom"), ("label", "top"), ("block", [("db", "v"), ("label", "inner")]), ("scope", "ns", [("dw", "v"), ("label", "exported")]), ("nop",)],
     "loop": [("star", "p0", "rom"), ("label", "before"), ("for", "i", 2, [("db", "v"), ("label", "inloop")]), ("label", "afterloop"), ("dw", "v")],
     "macro": [("star", "p0", "rom"), ("macro", "mm", [("abs", "v"), ("label", "local")]), ("apply", "mm"), ("label", "mid"), ("apply", "mm")],
@@ -51,7 +53,7 @@ TEMPLATES = {
     "literal": [("star", "p0", "rom"), ("raw", ".ascii 'a?b'", 3), ("label", "after"), ("dw", "v")],
     "nested": [("star", "p0", "rom"), ("block", [("scope", "ns", [("label", "deep"), ("dw", "v")]), ("for", "i", 2, [("block", [("db", "v")])])]), ("label", "end")],
 }
-QUICK = ["data", "instr", "two-blocks", "scopes", "loop", "reloc", "literal", "define-shadow"]
+QUICK = ["data", "instr", "two-blocks", "scopes", "loop", "reloc", "literal", "define-shadow", "repeat-block"]
 
 DEC = list(range(0x30, 0x3A))
 # name -> (text before the digits, digit domain, base, sign, text after the digits, digit separator?)
@@ -87,7 +89,7 @@ def jobs(tier, seed):
     for order in itertools.permutations(("p0", "p1", "p2")):
         for entry in ("cli", "file"):
             out.append({"id": f"three-blocks/{''.join(x[1] for x in order)}/{entry}", "tpl": "three-blocks", "entry": entry, "digits": 2, "wide": tier == "thorough", "order": list(order)})
-    for n in (names[:3] + ["dup-labels"] if tier == "quick" else names):
+    for n in (names[:3] + ["dup-labels", "macro", "loop"] if tier == "quick" else names):
         out.append({"id": f"{n}/symbol-file", "tpl": n, "entry": "symfile", "digits": 2, "wide": False})
     return out
 
